@@ -39,7 +39,7 @@ def register(J):
 
 def register_ext(J):
     pats = [(".qxnx", Q, 0), ("nqx.x", T, 0), ("xxxxx", Q, 0), ("x.nx.", Q, 1), ("qx.nx", Q, 0), ("nn.x", T, 0), (".x", T, 0), ("xnxnx", Q, 1), ("x.x", T, 0),
-            ("..", Q, 0), ("tx.nx", T, 1), ("qxxq.", T, 0), ("xxxxxx", T, 0)]
+            ("..", Q, 0), ("xxxx", Q, 0), ("xxx", T, 0), ("tx.nx", T, 1), ("qxxq.", T, 0), ("xxxxxx", T, 0)]
     for pat, tiers, multi in pats:
         n = len(pat)
         J.append(Job("extvalue." + pat.replace(".", "_"), ["C17", "C14", "C10", "C20", "C04"], "harness/extvalue.c",
